@@ -22,7 +22,9 @@ def showRatC (q : Rat) : String := if q.den = 1 then toString q.num else toStrin
 
 def showCell : Cell → String
   | none => "nan"
-  | some q => showRatC q
+  | some (.fin q) => showRatC q
+  | some .pinf => "inf"
+  | some .ninf => "-inf"
 
 def showRows (rows : List Row) : String :=
   if rows.isEmpty then "-" else ":".intercalate (rows.map (fun r => ",".intercalate (r.map showCell)))
@@ -41,7 +43,10 @@ def showPool (p : Pool) : String := " & ".intercalate (p.map showSeries)
 /-! parsing -/
 
 def cell? (s : String) : Option Cell :=
-  if s = "nan" then some none else (parseRat? s).map some
+  if s = "nan" then some none
+  else if s = "inf" then some (some .pinf)
+  else if s = "-inf" then some (some .ninf)
+  else (parseRat? s).map (fun q => some (.fin q))
 
 def splitNE (s : String) (sep : String) : List String := if s = "" then [] else s.splitOn sep
 
@@ -77,7 +82,14 @@ def vars? (s : String) : Option VarArg :=
     | some r => r.toInt?.map .one
     | none => match after s "vl=" with
       | some r => (splitNE r ",").mapM String.toInt? |>.map .list
-      | none => none
+      | none => match after s "vsl=" with
+        | some r => (match r.splitOn ":" with
+          | [a, b] => do
+            let a' ← (if a = "" then some none else a.toInt?.map some)
+            let b' ← (if b = "" then some none else b.toInt?.map some)
+            pure (.slice a' b')
+          | _ => none)
+        | none => none
 
 def transposeRows (rows : List Row) : List (List Cell) :=
   transpose ((rows.head?.map List.length).getD 0) rows
@@ -148,6 +160,12 @@ def parseOp (ws : List String) : Option Op :=
     pure (.init (← k.toNat?) (← Freq.ofLetter? f) (← st.toInt?) (← nv.toNat?) (← rows? rows))
   | ["set", i, d, v, x] => do pure (.set (← i.toNat?) (← dates? d) (← vars? v) (← data? x))
   | ["get", i, d, v] => do pure (.get (← i.toNat?) (← dates? d) (← vars? v))
+  -- other public spellings of the same write / read: `x[dates, variants] = data`, `set_data(dates=…, data=…, variants=…)`,
+  -- `x[dates, variants]`, `get_data(dates=…, variants=…)`
+  | ["setb", i, d, v, x] => do pure (.set (← i.toNat?) (← dates? d) (← vars? v) (← data? x))
+  | ["setk", i, d, v, x] => do pure (.set (← i.toNat?) (← dates? d) (← vars? v) (← data? x))
+  | ["getb", i, d, v] => do pure (.get (← i.toNat?) (← dates? d) (← vars? v))
+  | ["getk", i, d, v] => do pure (.get (← i.toNat?) (← dates? d) (← vars? v))
   | ["gfu", i, a, b, v] => do pure (.gfu (← i.toNat?) (← period? a) (← period? b) (← vars? v))
   | ["call", k, i, d, v] => do pure (.call (← k.toNat?) (← i.toNat?) (← dates? d) (← vars? v))
   | ["shift", i, b] => do pure (.shift (← i.toNat?) (← shiftBy? b))
